@@ -14,6 +14,7 @@ FAMILY = {
     'C04': {'report_triple', 'report_schema_valid', 'report_truthful', 'report_only_changed', 'report_complete', 'report_description_self_contained',
             'report_mds_grouping', 'report_rest_announced', 'nosend', 'store_truthful'},
     'C03': {'nosend'},
+    'C11': {'consumer_lookups_agree'},
 }
 
 
@@ -35,8 +36,8 @@ def strip(trace):
     return [{k: v for k, v in r.items() if k not in ('exc', 'model_res', 'obs', 'published_same', 'sit')} for r in trace]
 
 
-def run_family(run, pid, num, variants, seed_offset=0):
-    behs = mdibcommon.generate(run, num, run.pick(30, 40), run.seed + 1000 + seed_offset, fold=run.pick(1, 2))
+def run_family(run, pid, num, variants, seed_offset=0, prefixes=None):
+    behs = mdibcommon.generate(run, num, run.pick(30, 40), run.seed + 1000 + seed_offset, fold=run.pick(1, 2), prefixes=prefixes)
     traces = record(behs, variants)
     rejects = tracecheck.validate(run, 'MirrorTrace', 'MirrorTrace.cfg', [strip(t) for t in traces], chunk=600)
     fam = FAMILY[pid]
